@@ -508,6 +508,10 @@ class Pointwise:
             return e.id
         if isinstance(e, ast.Attribute) and isinstance(e.value, ast.Name) and e.value.id == "self":
             return e.attr.lstrip("_")
+        if isinstance(e, ast.Attribute):
+            ch = attr_chain(e)
+            if ch and ch.startswith("self.") and all(p_ in ("sim", "model", "event") for p_ in ch.split(".")[1:-1]):
+                return e.attr.lstrip("_")          # self.sim.model.x / self.event.x: the named quantity
         return None
 
     # -- expressions
@@ -597,6 +601,9 @@ class Pointwise:
             f = e.func
             if isinstance(f, ast.Attribute) and f.attr in ("flatten", "copy", "ravel") and not e.args:
                 return self.expr(f.value, mask)
+            if isinstance(f, ast.Attribute) and f.attr == "round" and len(e.args) == 1 and not e.keywords:
+                # decimal rounding to a number of places held in an `int` parameter: the model's `roundDec`
+                return f"(Boario.roundDec {self.nat(e.args[0])} {self.expr(f.value, mask)})"
             ch = attr_chain(f)
             if ch in ("np.maximum", "np.fmax") and len(e.args) == 2 and not e.keywords:
                 return f"(max {self.expr(e.args[0], mask)} {self.expr(e.args[1], mask)})"
@@ -885,6 +892,44 @@ def gen_formulas(trees, rec_tree):
         "stock_gap_psi_cell", find_func(psi_cls, "calc_matrix_stock_gap"),
         "`ARIOPsiModel.calc_matrix_stock_gap`, one (input, industry) cell.",
         fixed_params=["restoration_tau", "super_calc_matrix_stock_gap"]))
+    tracker = find_class(trees["simulation"], "EventTracker")
+
+    def ledger_update(target):
+        """the statements of `receive_*_rebuilding` that update the ledger `target` (subtraction, rounding, floor at 0)"""
+        def sel(fn):
+            out = []
+            for st in fn.body:
+                t = None
+                if isinstance(st, ast.AugAssign):
+                    t = Pointwise.name_of(None, st.target)
+                elif isinstance(st, ast.Assign) and len(st.targets) == 1:
+                    tg = st.targets[0]
+                    t = Pointwise.name_of(None, tg.value if isinstance(tg, ast.Subscript) else tg)
+                if t == target:
+                    out.append(st)
+            if len(out) >= 2:
+                return out
+            raise Untranslatable(f"ledger update of {target} not found")
+        return sel
+    for which in ("indus", "house"):
+        parts.append(lean_formula(
+            f"settle_{which}_cell", find_func(tracker, f"receive_{which}_rebuilding"),
+            f"`EventTracker.receive_{which}_rebuilding`, one cell of the remaining reconstruction demand after a delivery "
+            "(`precision` = number of decimals kept, computed from the model's monetary factor).",
+            nat_params=("precision",), fixed_params=["precision", f"distributed_reb_dem_{which}", "reb_prod"],
+            body=ledger_update(f"distributed_reb_dem_{which}"), result=f"distributed_reb_dem_{which}"))
+
+        def only_return(fn):
+            got = [st for st in fn.body if isinstance(st, ast.Return)]
+            if len(got) == 1:
+                return got
+            raise Untranslatable("single return not found")
+        parts.append(lean_formula(
+            f"presented_{which}_cell", find_func(tracker, f"distributed_reb_dem_{which}_tau"),
+            f"`EventTracker.distributed_reb_dem_{which}_tau`, one cell of the demand presented to producers "
+            "(`reb_tau` is the event's rebuilding time, or the model's when the event has none).",
+            nat_params=("n_temporal_units_by_step", "reb_tau"),
+            fixed_params=[f"distributed_reb_dem_{which}", "n_temporal_units_by_step", "reb_tau"], body=only_return))
     parts.append(lean_formula(
         "need_cell", orders_fn, "`calc_orders`: one (input, industry) cell of the need = inventory gap + input used by realised production.",
         fixed_params=["matrix_stock_gap", "production", "tech_mat"], body=aug_of("matrix_stock_gap"), result="matrix_stock_gap"))
@@ -926,7 +971,7 @@ def gen_formulas(trees, rec_tree):
             fname, fn, f"`recovery_functions.{fname}`, one cell ({sim_passes}).",
             inline_nat=inl_nat, fixed_params=["elapsed_temporal_unit", "init_impact_stock", "recovery_tau"], **rec))
     return ("/- GENERATED by harness/translate.py: element-wise formulas of the source as functions of one cell. Do not edit. -/\n"
-            "import Boario.GenTypes\n\nnamespace Boario.Gen\n\n" + "\n".join(parts) + "\nend Boario.Gen\n")
+            "import Boario.GenTypes\nimport Boario.Basic\n\nnamespace Boario.Gen\n\n" + "\n".join(parts) + "\nend Boario.Gen\n")
 
 
 def regenerate():
